@@ -138,8 +138,18 @@ Place(e, V, neg) ==
 
 (* The specified write: clear the field, then place the value *)
 Write(e, W, V, neg) == (W \ Mask(e)) \cup Place(e, V, neg)
-(* The defect pattern "OR into the word without clearing" (anti-vacuity variant) *)
+(* Deliberately broken writers (each is a defect the implementation once had).  They are not part
+   of the specification: MCInsnFields checks that TLC rejects every one of them (anti-vacuity). *)
+(* OR into the word without clearing the field first *)
 WriteOr(e, W, V, neg) == W \cup Place(e, V, neg)
+(* MOVN/MOVZ group: keep only rd [4:0] and hw [22:21], force a complete 64-bit MOVN/MOVZ opcode
+   (0x92800000: bits 31, 28, 25, 23) *)
+WriteMovnzClobber(e, W, V, neg) ==
+    IF e.movnz THEN (W \cap ((0..4) \cup {21, 22})) \cup {31, 28, 25, 23} \cup Place(e, V, neg)
+    ELSE Write(e, W, V, neg)
+(* CALL36: the 20-bit high part not masked: the rounding carry lands in bit 25 *)
+WriteCall36Carry(e, W, V, neg) ==
+    Write(e, W, V, neg) \cup (IF e.use = "Call36" /\ 36 \in AddPow2(V, 15) THEN {25} ELSE {})
 
 (* ISA decode: per segment, the value bits stored in the field *)
 DecodeNeg(e, W) == e.movnz /\ 30 \notin W
